@@ -348,6 +348,11 @@ func (s *Source) Teardown(ctx context.Context, _ pconnector.SourceTeardownReques
 		}
 	}
 	s.W.Log(s.S.Name, "teardown", -1, "")
+	if err := ctx.Err(); err != nil {
+		// like the real plugin adapters (the built-in sandbox, a gRPC call): a call made with an already cancelled
+		// context reports the cancellation although the plugin goes down
+		return pconnector.SourceTeardownResponse{}, err
+	}
 	return pconnector.SourceTeardownResponse{}, nil
 }
 
@@ -657,6 +662,9 @@ func (d *Dest) Teardown(ctx context.Context, _ pconnector.DestinationTeardownReq
 		}
 	}
 	d.W.Log(d.S.Name, "teardown", -1, "")
+	if err := ctx.Err(); err != nil {
+		return pconnector.DestinationTeardownResponse{}, err // see Source.Teardown
+	}
 	return pconnector.DestinationTeardownResponse{}, nil
 }
 
